@@ -412,6 +412,42 @@ def ffi_flow():
                 fail('a stale / unknown / wrong-typed handle crashed the process', c, dict(signal=r[1]))
             elif r[1] == 0:
                 fail('a stale / unknown / wrong-typed handle in an otherwise valid call was accepted (returned Success)', c, dict(rc=0))
+    # a self-attested attribute through the C ABI: it must arrive in the presentation, which must verify
+    reqs = dict(reqj); reqs['requested_attributes'] = dict(reqj['requested_attributes'], s1={"name": "nick"})
+    rc, prhs = from_json('presentation_request', reqs); chk(rc, 'presentation_request_from_json (self-attested)')
+    san, ksan = strlist(['s1']); sav, ksav = strlist(['Al'])
+    good = (CredProve * 2)(CredProve(0, b'a1', 0, 1), CredProve(0, b'p1', 1, 0))
+    ps = H()
+    chk(cp(prhs, FfiList(1, C.cast(entries, C.c_void_p)), FfiList(2, C.cast(good, C.c_void_p)), san, sav, secret, sl, sids, cl, cids, C.byref(ps)), 'create_presentation (self-attested)')
+    psj = json.loads(to_json(ps.value)); r3 = C.c_int8(-1)
+    rcv = verify_legacy(ps, prhs, sl, sids, cl, cids, FfiList(0, None), FfiList(0, None), FfiList(0, None), FfiList(0, None), C.byref(r3))
+    cases += 1; count('c17:self-attested')
+    if psj['requested_proof'].get('self_attested_attrs') != {'s1': 'Al'} or rcv != 0 or r3.value != 1:
+        fail('a self-attested attribute passed through the C ABI does not arrive / the presentation does not verify', dict(kind='ffi-flow', what='self-attested'), dict(self_attested=psj['requested_proof'].get('self_attested_attrs'), rc=rcv, result=r3.value))
+    # the same credential issued with caller-supplied encoded values (third list of create_credential)
+    import hashlib, re as _re
+    def enc(v):
+        if _re.fullmatch(r'[+-]?[0-9]+', v) and -2 ** 31 <= int(v) < 2 ** 31: return str(int(v))
+        return str(int.from_bytes(hashlib.sha256(v.encode()).digest(), 'big'))
+    offer_e = H(); chk(fn('anoncreds_create_credential_offer', [C.c_char_p, C.c_char_p, H, C.POINTER(H)])(b'did:web:ffi/schema', b'did:web:ffi/cd', kcp, C.byref(offer_e)), 'create_credential_offer (3)')
+    req_e, meta_e = H(), H()
+    chk(fn('anoncreds_create_credential_request', [C.c_char_p, C.c_char_p, H, C.c_char_p, C.c_char_p, H, C.POINTER(H), C.POINTER(H)])(
+        b'entropy', None, cd, secret, b'ls', offer_e, C.byref(req_e), C.byref(meta_e)), 'create_credential_request (3)')
+    raw_e = ['Carol', '+042']; raws_e, ke1 = strlist(raw_e); encs_e, ke2 = strlist([enc(v) for v in raw_e])
+    cred_e = H(); chk(fn('anoncreds_create_credential', [H, H, H, H, FfiList, FfiList, FfiList, C.c_void_p, C.POINTER(H)])(
+        cd, cdp, offer_e, req_e, names, raws_e, encs_e, None, C.byref(cred_e)), 'create_credential (encoded values supplied)')
+    cej = json.loads(to_json(cred_e.value))
+    cases += 1; count('c17:encoded-values-supplied')
+    if cej['values'] != {'name': {'raw': 'Carol', 'encoded': enc('Carol')}, 'age': {'raw': '+042', 'encoded': '42'}}:
+        fail('credential made through the C ABI with caller-supplied encoded values does not carry them', dict(kind='ffi-flow', what='encoded-values'), dict(values=cej['values']))
+    ce2 = H(); chk(fn('anoncreds_process_credential', [H, H, C.c_char_p, H, H, C.POINTER(H)])(cred_e, meta_e, secret, cd, 0, C.byref(ce2)), 'process_credential (encoded values supplied)')
+    # the encoding helper of the C ABI on several values at once: the encodings joined by commas
+    many = ['Alice', '25', '+007', '-0', '2147483648', '', 'né']
+    ml, km = strlist(many); outp = C.c_char_p()
+    rc = fn('anoncreds_encode_credential_attributes', [FfiList, C.POINTER(C.c_char_p)])(ml, C.byref(outp))
+    cases += 1; count('c17:deterministic:encode-many')
+    if rc != 0 or (outp.value or b'').decode() != ','.join(enc(v) for v in many):
+        fail('anoncreds_encode_credential_attributes on several values is not the comma-joined list of their encodings', dict(kind='deterministic', op='encode_credential_attributes'), dict(rc=rc, got=(outp.value or b'').decode()[:200]))
     # two credential entries and three referents: the prove list is a flat list the caller may write in ANY order (attributes
     # first, second credential first, ...): every permutation must yield a presentation that verifies
     import itertools
